@@ -133,7 +133,7 @@ class SymFile:
 
     def begin_trial(self, iv):
         inv = getattr(self, "position_invariant", None)
-        if inv is not None and self.it.path.entails(as_int_term(self.pos) == inv(z3.IntVal(0))):
+        if inv is not None and self.it.path.entails_any(as_int_term(self.pos) == inv(z3.IntVal(0))):
             # loop invariant supplied by the contract: position before iteration iv (assumed here, verified in
             # end_trial); loops that do not start at the invariant's initial position are handled generically
             self._trial = (inv, self.pos)
@@ -155,7 +155,7 @@ class SymFile:
             self._trial = None
             return None
         if inv_is(self, S):
-            if not self.it.path.entails(after == S(iv + 1)):
+            if not self.it.path.entails_any(after == S(iv + 1)):
                 raise Unsupported("file position invariant is not preserved by the loop body")
             self.it.path.__dict__.setdefault("notes", []).append("file position invariant verified (init, preservation)")
             self.it.path.__dict__.setdefault("position_folds", []).append(
